@@ -316,6 +316,7 @@ pub struct OracleStats {
     pub saw_initial: u64,
     pub saw_foreign: u64,
     pub poisonings: u64,
+    pub threads_seeing_progress: u64,
 }
 
 /// The log checker: untorn, membership, never-observable, monotone, recent, final.
@@ -379,6 +380,15 @@ pub fn check_logs(out: &RunOut, timed: bool, st: &mut OracleStats) -> Result<(),
     }
 
     for (ti, log) in out.logs.iter().enumerate() {
+        {
+            // interleaving evidence: a thread whose successive snapshots differ
+            // ran concurrently with writers
+            let mut distinct: Vec<u64> = log.iter().filter(|r| r.kind == Kind::Snapshot).map(|r| r.base).collect();
+            distinct.dedup();
+            if distinct.len() > 1 {
+                st.threads_seeing_progress += 1;
+            }
+        }
         let mut last_seen = 0u64;
         let mut own_floor = 0u64;
         for (i, r) in log.iter().enumerate() {
@@ -607,4 +617,5 @@ fn record(ctx: &mut Ctx, st: &OracleStats) {
     ctx.feature_n("abt.snapshots_of_initial_pair", st.saw_initial);
     ctx.feature_n("abt.snapshots_of_another_threads_update", st.saw_foreign);
     ctx.feature_n("abt.writer_lock_poisoned_by_panicking_update", st.poisonings);
+    ctx.feature_n("abt.threads_whose_successive_snapshots_differ", st.threads_seeing_progress);
 }
